@@ -73,6 +73,19 @@ def make_data(seed, model, lead, K, D, ds):
         src = 1.2 * steer * np.exp(2j * np.pi * r.uniform(size=lead + (N, 1)))
         nz = A.cnormal(r, lead + (N, D)) * np.sqrt(2)
         y = np.where(lab, src + nz, nz)
+    elif ds == 'close' and cplx:
+        # tight classes of unequal spread (concentrations of about 300, 80, 35) whose directions are only 0.15 rad apart: they overlap,
+        # so the value of each class normaliser matters for the posterior
+        r = A.rng(seed, 'c02close', model, K, D, lead)
+        y = np.zeros(lead + (N, D), complex)
+        for idx in np.ndindex(*lead):
+            Q, _ = np.linalg.qr(A.cnormal(r, (D, D)))
+            lab = np.arange(N) % K
+            ang = 0.15 * lab
+            base = np.zeros((N, D), complex)
+            base[:, 0], base[:, 1] = np.cos(ang), np.sin(ang)
+            z = base + (0.08 * (1 + lab))[:, None] * A.cnormal(r, (N, D)) / np.sqrt(D)
+            y[idx] = (z * np.exp(2j * np.pi * r.uniform(size=(N, 1)))) @ Q.T
     elif ds == 'unclustered':
         y = A.generic_data(seed, lead + (N, D), 'c02', model, K, D, complex_=cplx)
     else:
@@ -323,8 +336,11 @@ def subchecks(tier, seed):
                         for eps in (('default', 0.0) if model in ('cacgmm', 'gcacgmm') else ('none',)):
                             for K in (2, 3):
                                 for D in (2, 3):
-                                    for ds in datasets:
+                                    for ds in datasets + ('close',):
                                         if ds in ('outlier', 'small') and model not in ('gmm', 'gcacgmm'):
+                                            continue
+                                        if ds == 'close' and (model not in ('cwmm', 'cacgmm', 'cbmm') or D != 3 or
+                                                              salk != 'none'):
                                             continue
                                         for st in starts:
                                             if ds in ('outlier', 'small') and not thorough and (salk != 'none' or st):
